@@ -80,7 +80,9 @@ Add(i) ==
   /\ open' = IF x.cls = "nl" /\ depth = 0 /\ ~(fresh /\ ~cont) THEN FALSE ELSE (open \/ Significant(x))
   /\ fresh' = IF x.cls = "nl" /\ depth = 0 THEN TRUE
               ELSE IF x.cls \in {"cmt", "cont"} THEN fresh ELSE IF x.cls = "nl" THEN fresh ELSE FALSE
-  /\ cont' = IF x.cls = "cont" THEN TRUE ELSE IF x.cls = "nl" THEN FALSE ELSE cont   \* the whole next physical line is "continued"
+  \* the whole next physical line is "continued" - unless the backslash stood alone at the start of a logical line: such a
+  \* line joins nothing, the next one is still the start of a logical line (blank => NL, white space => indentation)
+  /\ cont' = IF x.cls = "cont" THEN ~fresh ELSE IF x.cls = "nl" THEN FALSE ELSE cont
 Next == \E i \in Use : Add(i)
 
 \* what the scanner must do at the end of this text
